@@ -71,3 +71,68 @@ probe("lib/macbinary.c", [("macro", m, "mb_" + m) for m in
       + [("macro", "sizeof(((MacBinaryDecoder*)0)->mb_header)", "mb_header_extent"),
          ("macro", "sizeof(MacBinaryDecoder)", "sizeof_MacBinaryDecoder"),
          ("dtype", "macbinary_decoder_type", "macbinary")])
+
+# ---- src/list.c: the four column lists of the list commands (names, widths, which handler / footer
+# function each column uses, identity of the column object), the OS-name strings of
+# os_type_to_string (evaluated for every uint8_t value: the default string, the values that get
+# another one, and those strings) and the month names
+# (a function-local array of output_timestamp: obtained by running output_timestamp itself on
+# the 15th of every month of 1971, TZ=UTC, with stdout redirected to a memory stream).
+_LIST_HANDLERS = ["permission_column_print", "unix_uid_gid_column_print", "packed_column_print", "size_column_print",
+                  "ratio_column_print", "method_crc_column_print", "timestamp_column_print",
+                  "full_timestamp_column_print", "name_column_print", "whole_line_name_column_print",
+                  "header_level_column_print"]
+_LIST_FOOTERS = ["permission_column_footer", "unix_uid_gid_column_footer", "packed_column_footer",
+                 "size_column_footer", "ratio_column_footer", None, "timestamp_column_footer",
+                 "full_timestamp_column_footer"]
+_LIST_COLUMNS = ["permission_column", "unix_uid_gid_column", "packed_column", "size_column", "ratio_column",
+                 "method_crc_column", "timestamp_column", "full_timestamp_column", "name_column",
+                 "short_name_column", "whole_line_name_column", "header_level_column"]
+_LIST_ARRAYS = [("l", "normal_column_headers"), ("lv", "normal_column_headers_verbose"),
+                ("v", "verbose_column_headers"), ("vv", "verbose_column_headers_verbose")]
+_hid = " ".join("if (c_->handler == %s) id_ = %d;" % (h, k) for k, h in enumerate(_LIST_HANDLERS))
+_fid = " ".join("if (c_->footer == %s) id_ = %d;" % (h, k) for k, h in enumerate(_LIST_FOOTERS) if h)
+_cid = " ".join("if (c_ == &%s) id_ = %d;" % (h, k) for k, h in enumerate(_LIST_COLUMNS))
+_list_raw = r'''
+    { ListColumn **arrs_[] = { %s }; const char *tags_[] = { %s }; unsigned a_, n_, k_;
+      for (a_ = 0; a_ < %d; ++a_) {
+        ListColumn **cols_ = arrs_[a_]; ListColumn *c_; unsigned id_;
+        for (n_ = 0; cols_[n_] != NULL; ++n_);
+        printf("DEF list_cols_%%s_count %%u\n", tags_[a_], n_);
+        printf("TABLE list_cols_%%s_widths", tags_[a_]); for (k_ = 0; k_ < n_; ++k_) printf(" %%u", cols_[k_]->width); printf("\n");
+        printf("TABLE list_cols_%%s_handlers", tags_[a_]); for (k_ = 0; k_ < n_; ++k_) { c_ = cols_[k_]; id_ = 99; %s printf(" %%u", id_); } printf("\n");
+        printf("TABLE list_cols_%%s_footers", tags_[a_]); for (k_ = 0; k_ < n_; ++k_) { c_ = cols_[k_]; id_ = 99; if (c_->footer == NULL) id_ = 98; %s printf(" %%u", id_); } printf("\n");
+        printf("TABLE list_cols_%%s_ids", tags_[a_]); for (k_ = 0; k_ < n_; ++k_) { c_ = cols_[k_]; id_ = 99; %s printf(" %%u", id_); } printf("\n");
+        for (k_ = 0; k_ < n_; ++k_) { const unsigned char *s_ = (const unsigned char *) cols_[k_]->name;
+          printf("TABLE list_cols_%%s_name_%%u", tags_[a_], k_); for (; *s_; ++s_) printf(" %%u", (unsigned) *s_); printf("\n"); }
+      }
+    }
+    { unsigned o_, p_, best_ = 0, bestn_ = 0;   /* the string returned for most values is the default */
+      for (o_ = 0; o_ < 256; ++o_) { unsigned n_ = 0;
+        for (p_ = 0; p_ < 256; ++p_) if (!strcmp(os_type_to_string((uint8_t) o_), os_type_to_string((uint8_t) p_))) ++n_;
+        if (n_ > bestn_) { bestn_ = n_; best_ = o_; } }
+      { const unsigned char *s_ = (const unsigned char *) os_type_to_string((uint8_t) best_);
+        printf("TABLE list_os_name_default"); for (; *s_; ++s_) printf(" %%u", (unsigned) *s_); printf("\n"); }
+      printf("TABLE list_os_known");
+      for (o_ = 0; o_ < 256; ++o_) if (strcmp(os_type_to_string((uint8_t) o_), os_type_to_string((uint8_t) best_))) printf(" %%u", o_);
+      printf("\n");
+      for (o_ = 0; o_ < 256; ++o_) if (strcmp(os_type_to_string((uint8_t) o_), os_type_to_string((uint8_t) best_))) {
+        const unsigned char *s_ = (const unsigned char *) os_type_to_string((uint8_t) o_);
+        printf("TABLE list_os_name_%%u", o_); for (; *s_; ++s_) printf(" %%u", (unsigned) *s_); printf("\n"); } }
+    { unsigned m_; setenv("TZ", "UTC", 1); tzset(); unsetenv("TEST_NOW_TIME");
+      for (m_ = 0; m_ < 12; ++m_) {
+        /* day 365 + cum_[m_] + 14 of the epoch = the 15th of month m_ of 1971 (not a leap year), 00:00:00 UTC */
+        static const unsigned cum_[12] = { 0, 31, 59, 90, 120, 151, 181, 212, 243, 273, 304, 334 };
+        unsigned ts_ = (365 + cum_[m_] + 14) * 86400u; char *buf_ = NULL; size_t len_ = 0; size_t q_;
+        FILE *save_ = stdout; FILE *ms_ = open_memstream(&buf_, &len_);
+        if (ms_ == NULL) return 1;
+        fflush(stdout); stdout = ms_; output_timestamp(ts_); fflush(ms_); stdout = save_; fclose(ms_);
+        printf("TABLE list_month_%%u", m_);
+        for (q_ = 0; q_ < len_ && buf_[q_] != ' '; ++q_) printf(" %%u", (unsigned) (unsigned char) buf_[q_]);
+        printf("\n"); free(buf_);
+      }
+    }
+''' % (", ".join(n for _, n in _LIST_ARRAYS), ", ".join('"%s"' % t for t, _ in _LIST_ARRAYS), len(_LIST_ARRAYS),
+       _hid, _fid, _cid)
+probe("src/list.c", [("raw", _list_raw, None)],
+      pre='#define _GNU_SOURCE\n#include <stdio.h>\n#include <stdlib.h>\n#include <time.h>\n#include "safe.c"\n#include "filter.c"\n')
